@@ -256,7 +256,10 @@ class Analyzer:
             if isinstance(n, ast.Call):
                 fn = n.func
                 if isinstance(fn, ast.Name):
-                    if fn.id in DYNAMIC:
+                    if fn.id in ("setattr", "delattr") and n.args and not any(isinstance(a, ast.Starred) for a in n.args):
+                        # setattr(obj, name, value) is a store into obj, whatever the attribute: charged to obj's category
+                        self.record_write(f, n.args[0], env, f"{fn.id}() on")
+                    elif fn.id in DYNAMIC:
                         f.unknown.append(f"dynamic {fn.id}()")
                     f.calls.append(("name", fn.id, None))
                 elif isinstance(fn, ast.Attribute):
